@@ -39,6 +39,12 @@ def swap_dir(dirs, directory):
         dirs[0] = tmp
 
 
+class AmbiguousIncludeError(Exception):
+    def __init__(self, path, leaf, first, second):
+        Exception.__init__(self, "file %s is used through different paths: its include %s would be %s here and %s there" %
+                           (path, leaf, second or "missing", first or "missing"))
+
+
 class SameNameError(Exception):
     def __init__(self, name, first, second):
         Exception.__init__(self, "two different files named '%s' are used: %s and %s" % (name, first, second))
@@ -66,6 +72,9 @@ class FileProcessor(object):
         '''Base names (outputs are named after them) of the files used so far, with the file each one stands for'''
         self.own_dirs = []
         '''Directories searched before include_dirs for the includes of the file being processed'''
+        self.includes_of = {}
+        self.including = None
+        '''Absolute paths are keys, values are the includes of that file: (leaf, absolute path it was found at)'''
 
     def __call__(self, path):
         return self.process_main(path)
@@ -85,12 +94,17 @@ class FileProcessor(object):
 
         It's meant to be called multiple times recurrentially by content processor.
         '''
-        path = _get_first_existing_path(leaf, self.include_dirs[:1] + self.own_dirs + self.include_dirs[1:])
+        path = self._find(leaf)
+        if self.including is not None:
+            self.includes_of[self.including].append((leaf, path and os.path.realpath(path)))
         if not path:
             raise FileNotFoundError(leaf)
         """ a file is one file however it is reached: its own includes are searched next to the file itself """
         with swap_dir(self.include_dirs, _directories_of(path)[0]), self._own_dirs(path):
             return self._process_file(path)
+
+    def _find(self, leaf):
+        return _get_first_existing_path(leaf, self.include_dirs[:1] + self.own_dirs + self.include_dirs[1:])
 
     @contextmanager
     def _own_dirs(self, path):
@@ -109,14 +123,24 @@ class FileProcessor(object):
         if abspath in self.files:
             if self.files[abspath] is None:
                 raise CyclicIncludeError(path)
+            """ parsed once, the file stands for every path that reaches it: its includes have to be the same files from here """
+            for leaf, found in self.includes_of[abspath]:
+                here = self._find(leaf)
+                if (here and os.path.realpath(here)) != found:
+                    raise AmbiguousIncludeError(path, leaf, found, here)
             return self.files[abspath]
         self.files[abspath] = None
+        self.includes_of[abspath] = []
 
         try:
             with codecs.open(path, 'r', encoding='utf-8-sig') as f:
                 content = f.read()
         except UnicodeError as e:
             raise UnicodeError("%s: %s" % (path, e))
-        result = self.process_content(content, path, lambda leaf: self.process_leaf(leaf))
+        outer, self.including = self.including, abspath
+        try:
+            result = self.process_content(content, path, lambda leaf: self.process_leaf(leaf))
+        finally:
+            self.including = outer
         self.files[abspath] = result
         return result
